@@ -80,8 +80,8 @@ var properties = map[string]propSpec{
 	},
 	"C04": {
 		Bounds: [2]map[string]any{
-			{"sides": "|l| 0..2, |r| 0..2 (two-column conditions: ≤3 rows in total); PARALLEL: ≤3 rows in total", "keys": "any non-NaN float64 except -0 (opaque key text), or strings ≤1 byte over {a,b} for the single-column conditions", "joins": "JOIN/LEFT/RIGHT × plain/HASH_JOIN/STRAIGHT_JOIN(inner) × 9 ON conditions (=, flipped, two-column in both orders, <, !=, OR, mixed, >=); two-column joins on the integer keys {1,2,3,12,23} whose texts can be confused; mixed-kind keys (1, '1', 2, '2', '1.0', true, 'true') on 2×2 rows under = and <; key columns differing only in letter case; 5 alias pairs (prefixes of one another, multi-letter) × 3 ON orientations on 0..2 × 0..2 rows", "schedules": "PARALLEL variants: every schedule with ≤1 preemption at synchronisation granularity, race monitor on", "map iteration": "every order at the join loops"},
-			{"sides": "|l| 0..3, |r| 0..2; PARALLEL ≤4 rows in total", "keys": "same", "joins": "same", "schedules": "≤2 preemptions", "map iteration": "same"},
+			{"sides": "|l| 0..2, |r| 0..2 (two-column conditions: ≤3 rows in total); PARALLEL: ≤3 rows in total", "keys": "any non-NaN float64 except -0 (opaque key text), or strings ≤1 byte over {a,b} for the single-column conditions", "joins": "JOIN/LEFT/RIGHT × plain/HASH_JOIN/STRAIGHT_JOIN(inner) × 9 ON conditions (=, flipped, two-column in both orders, <, !=, OR, mixed, >=); two-column joins on the integer keys {1,2,3,12,23} whose texts can be confused; mixed-kind keys (1, '1', 2, '2', '1.0', true, 'true') on 2×2 rows under = and <; key columns differing only in letter case; 5 alias pairs (prefixes of one another, multi-letter) × 3 ON orientations on 0..2 × 0..2 rows; three-conjunct ON conditions over three column pairs: every combination of =, <, != in every position × left/right nesting × every type and strategy on 1 × 1 rows", "schedules": "PARALLEL variants: every schedule with ≤1 preemption at synchronisation granularity, race monitor on", "map iteration": "every order at the join loops"},
+			{"sides": "|l| 0..3, |r| 0..2; PARALLEL ≤4 rows in total", "keys": "same", "joins": "same; three-conjunct conditions also on 2 × 1 rows (inner, left nesting, automatic and HASH_JOIN)", "schedules": "≤2 preemptions", "map iteration": "same"},
 		},
 		Outside: []string{"INTO grouping joins", "more than two tables", "NaN keys", "SHA-256 collision freedom and injectivity of base64 are assumed for the hash keys"},
 	},
@@ -94,7 +94,7 @@ var properties = map[string]propSpec{
 	},
 	"C06": {
 		Bounds: [2]map[string]any{
-			{"rows": "DISTINCT: 0..3 numeric rows × 2 columns, 0..2 string rows (≤3 bytes over {' ',':','b'}); UNION: branches of 0..2 rows, 2 and 3 branches, UNION/UNION ALL mixes, parenthesised nested unions with their own LIMIT, LIMIT 0..10, LIMIT 0..10 OFFSET 0..5 on UNION and UNION ALL; DISTINCT with LIMIT 0..4 OFFSET 0..4; DISTINCT over a projection of a two-column GROUP BY key (0..3 rows); a windowed plain branch inside UNION [ALL] … LIMIT"},
+			{"rows": "DISTINCT: 0..3 numeric rows × 2 columns, 0..2 string rows (≤3 bytes over {' ',':','b'}); UNION: branches of 0..2 rows, 2 and 3 branches, UNION/UNION ALL mixes, parenthesised nested unions with their own LIMIT, LIMIT 0..10, LIMIT 0..10 OFFSET 0..5 on UNION and UNION ALL; DISTINCT with LIMIT 0..4 OFFSET 0..4; DISTINCT over a projection of a two-column GROUP BY key (0..3 rows); a windowed plain branch inside UNION [ALL] … LIMIT; ragged rows: DISTINCT * over 0..3 rows each with or without column b, unions of branches with different select lists (narrow first, wide first, three branches)"},
 			{"rows": "DISTINCT: 0..4 numeric rows; otherwise same"},
 		},
 		Outside: []string{"nested values in DISTINCT rows", "-0 cells", "ORDER BY on a union"},
@@ -122,20 +122,20 @@ var properties = map[string]propSpec{
 	},
 	"C10": {
 		Bounds: [2]map[string]any{
-			{"queries": "36 + 32 malformed/unsupported/failing templates (INTO joins with unmatched rows, AWAIT forms, dual, selector functions and pipes in FROM, type-confused operands) × option combinations on a small symbolic document; every built-in function × 14 argument lists (wrong counts, wrong kinds, NULL) × {plain, ASYNC, SPIN, ONCE, SPINASYNC, GLOBAL, SCOPED} × {select list, WHERE}; every listed query executed three times on one Query object with and without WithVars; single-character mutants (9 replacements or deletion at every position) of every fourth listed query", "preprocessors": "every byte string ≤5 over {\" ' ` \\ [ ] a 0xC3}", "goroutines": "ASYNC/SPIN/SPINASYNC calls of failing and panicking functions, PARALLEL joins with failing ON: every schedule with ≤1 preemption"},
+			{"queries": "36 + 32 malformed/unsupported/failing templates (INTO joins with unmatched rows, AWAIT forms, dual, selector functions and pipes in FROM, type-confused operands) × option combinations on a small symbolic document; every built-in function × 14 argument lists (wrong counts, wrong kinds, NULL) × {plain, ASYNC, SPIN, ONCE, SPINASYNC, GLOBAL, SCOPED} × {select list, WHERE}; every listed query (5 of them with a selector the selector parser rejects) executed three times on one Query object with and without WithVars, followed by an ordinary query that must be built and return; single-character mutants (9 replacements or deletion at every position) of every fourth listed query", "preprocessors": "every byte string ≤5 over {\" ' ` \\ [ ] a 0xC3}", "goroutines": "ASYNC/SPIN/SPINASYNC calls of failing and panicking functions, PARALLEL joins with failing ON: every schedule with ≤1 preemption"},
 			{"queries": "same; mutants of every listed query", "preprocessors": "≤7 bytes", "goroutines": "same"},
 		},
 		Outside: []string{"sqlparser.Parse on arbitrary bytes: the generated LALR parser is not encodable, so 'all byte strings as queries' is covered only through the template list"},
 	},
 	"C11": {
 		Bounds: [2]map[string]any{
-			{"documents": "0..2 rows × nested arrays of 1..2 rows", "queries": "19 templates (filters, subqueries, EXISTS, CTE on SELECT / on UNION / in a derived table / in an IN-subquery, joins, ORDER BY, aggregates, DISTINCT, selector functions) × with/without Wrapped(); 13 joins against a second table with unmatched rows (LEFT/RIGHT/inner, hash / nested loop / STRAIGHT / PARALLEL, INTO, with and without aliases)", "faults": "a user function failing at its k-th invocation, k = none,1,2,3"},
+			{"documents": "0..2 rows × nested arrays of 1..2 rows", "queries": "24 templates (FUSE of a nested object as first / middle / aliased / repeated select item; filters, subqueries, EXISTS, CTE on SELECT / on UNION / in a derived table / in an IN-subquery, joins, ORDER BY, aggregates, DISTINCT, selector functions) × with/without Wrapped(); 13 joins against a second table with unmatched rows (LEFT/RIGHT/inner, hash / nested loop / STRAIGHT / PARALLEL, INTO, with and without aliases)", "faults": "a user function failing at its k-th invocation, k = none,1,2,3"},
 			{"documents": "same", "queries": "same", "faults": "same"},
 		},
 	},
 	"C12": {
 		Bounds: [2]map[string]any{
-			{"documents": "0..2 rows with one nested row", "queries": "27 templates (NULL/missing operands in arithmetic, CASE, ARRAY, IF, tuples, aggregates and ORDER BY; ASYNC inside CTE, derived table and subquery read through SELECT *) covering every expression form and clause position (tuples, ARRAY, CASE, subqueries, EXISTS, IF/CONCAT, GROUP BY, joins, FIRST/LAST/UNWIND, ASYNC, CTE, derived table, ORDER/LIMIT, SETVAR/GETVAR, DISTINCT, FUSE)", "repetition": "second evaluation on an equal fresh input", "schedules": "≤1 preemption"},
+			{"documents": "0..2 rows with one nested row", "queries": "30 templates (FUSE reaching the select list through CASE, IF, ARRAY and a value tuple; NULL/missing operands in arithmetic, CASE, ARRAY, IF, tuples, aggregates and ORDER BY; ASYNC inside CTE, derived table and subquery read through SELECT *) covering every expression form and clause position (tuples, ARRAY, CASE, subqueries, EXISTS, IF/CONCAT, GROUP BY, joins, FIRST/LAST/UNWIND, ASYNC, CTE, derived table, ORDER/LIMIT, SETVAR/GETVAR, DISTINCT, FUSE)", "repetition": "second evaluation on an equal fresh input", "schedules": "≤1 preemption"},
 			{"documents": "same", "queries": "same", "repetition": "same", "schedules": "same"},
 		},
 		Outside: []string{"TIMESTAMP (clock)"},
@@ -156,14 +156,14 @@ var properties = map[string]propSpec{
 	},
 	"C15": {
 		Bounds: [2]map[string]any{
-			{"numbers": "all 144 pairs of the 12 Go numeric types, any integer that float64 represents exactly, up to 2^63 / 2^64 (narrow types: every bit pattern), any finite float32, any finite float64", "strings": "any byte strings ≤2 bytes", "number×string": "integers and halves in -3..12.5 against any string ≤2 bytes over [0-9.-a]; float32/float64 quarters and tenths (non-dyadic float32 included), int32, int64, uint16 in -12..11 against any string ≤2 bytes over {0 1 2 9 . -}, against the number's own text and that text extended by one digit"},
+			{"numbers": "all 144 pairs of the 12 Go numeric types, any integer that float64 represents exactly, up to 2^63 / 2^64 (narrow types: every bit pattern), any finite float32, any finite float64", "strings": "any byte strings ≤2 bytes", "number×string": "integers and halves in -3..12.5 against any string ≤2 bytes over [0-9.-a]; float32/float64 quarters and tenths (non-dyadic float32 included), int32, int64, uint16 in -12..11 against any string ≤2 bytes over {0 1 2 9 . -}, against the number's own text and that text extended by one digit; history: a float32 tenth/quarter and the float64 of the same value, an int and its float64 (24 values each), compared in either order against their own texts and any 1-byte string"},
 			{"numbers": "same", "strings": "≤3 bytes", "number×string": "same over [0-9.-]"},
 		},
 		Outside: []string{"integers that float64 does not represent exactly", "NaN"},
 	},
 	"C16": {
 		Bounds: [2]map[string]any{
-			{"string arguments": "every byte string ≤3 over {' \\ - # blank a \" ; / * NUL 0xC3}", "scalars": "int64 -11..11 and 7 values at the limits (MinInt64, MaxInt64, ±2^53±1, 2^62), 15 float64 values (MaxFloat64, smallest subnormal, 1e±300, 0.1), booleans, NULL × 3 syntactic positions", "templates": "'SELECT '+t+' FROM x' for every t ≤4 bytes over {$ 1 ' \" ` - / * # newline blank a \\}", "comments": "/*body*/$1 for every body ≤3 bytes over {* / blank quote $ 1}", "argument accounting": "missing, unused, $0, repeated, placeholder numbers beyond the integer range", "two placeholders": "two string arguments ≤2 bytes each in three positions"},
+			{"string arguments": "every byte string ≤3 over {' \\ - # blank a \" ; / * NUL 0xC3}", "scalars": "int64 -11..11 and 7 values at the limits (MinInt64, MaxInt64, ±2^53±1, 2^62), 15 float64 values (MaxFloat64, smallest subnormal, 1e±300, 0.1), booleans, NULL × 3 syntactic positions", "templates": "'SELECT '+t+' FROM x' for every t ≤4 bytes over {$ 1 ' \" ` - / * # newline blank a \\}", "comments": "/*body*/$1 for every body ≤3 bytes over {* / blank quote $ 1}", "argument accounting": "missing, unused, $0, repeated, placeholder numbers beyond the integer range; 1, 2, 31..33, 63..66, 128, 129, 257 arguments all used or all but the first / last / middle one", "two placeholders": "two string arguments ≤2 bytes each in three positions"},
 			{"string arguments": "≤4 bytes", "scalars": "same", "templates": "≤5 bytes", "argument accounting": "same"},
 		},
 		Outside: []string{"[]byte and time.Time arguments", "the parser and tokenizer run natively on each concretised text: a symbolic query text is concretised byte by byte (bounded enumeration by the solver)"},
@@ -190,7 +190,7 @@ var properties = map[string]propSpec{
 	},
 	"C20": {
 		Bounds: [2]map[string]any{
-			{"histories": "every select list of 4 SETVAR/GETVAR operations over 2 keys (256 sequences) × 0..2 rows, followed by a second query sharing the map; every sequence of 3 stores of values of different kinds that print alike (1/'1', true/'true', NULL/'<nil>', symbolic number and string); queries prepared up front and executed later / re-executed / with caller updates in between; every sequence of 3 stores and a read over the 7 key expressions 1, 1.5, '1', 2.5, 1000000, 'k', 0.25 with the final contents of the caller's map"},
+			{"histories": "every select list of 4 SETVAR/GETVAR operations over 2 keys (256 sequences) × 0..2 rows, followed by a second query sharing the map; every sequence of 3 stores of values of different kinds that print alike (1/'1', true/'true', NULL/'<nil>', symbolic number and string); queries prepared up front and executed later / re-executed / with caller updates in between; every sequence of 3 stores and a read over the 11 key expressions 1, 1.5, '1', 2.5, 1000000, 'k', 0.25, 'K', 'k ', KELVIN SIGN, '1E+06' with the final contents of the caller's map"},
 			{"histories": "same"},
 		},
 	},
